@@ -392,6 +392,45 @@ func runC13(c *Ctx) {
 			c.Check(okWrap && rec && deferred, "C13.U4-tonode-total", tn0.Name, tn.SSA.Pos(), "wraps with "+t.proto+".Type() under a deferred recover that turns a panic into the returned error", "ToNode does not wrap with its own prototype's type or lets bindnode panics escape")
 		}
 	}
+	// U9: the byte decoders decode the bytes they are given: what reaches the codec is a reader over the data
+	// parameter itself, and the decoder rejects nothing on its own before the codec has seen the bytes (trimming
+	// "white space" off binary DAG-CBOR cuts a block whose last byte happens to be one)
+	for _, name := range []string{"BytesToAdvertisement", "BytesToEntryChunk"} {
+		f := c.Func(schemaPkg, name)
+		if f == nil {
+			c.Unk("C13.U9-decodes-bytes-as-given", "ingest/schema."+name, token.NoPos, "not found")
+			continue
+		}
+		var data *ssa.Parameter
+		for _, p := range f.SSA.Params {
+			if sl, ok := p.Type().Underlying().(*types.Slice); ok && types.Identical(sl.Elem(), types.Typ[types.Byte]) {
+				data = p
+			}
+		}
+		okSrc, n := data != nil, 0
+		for _, cs := range c.Calls(f.SSA, Or(Call("bytes.NewBuffer"), Call("bytes.NewReader"))) {
+			n++
+			if a := strip(cs.X.Args[0]); a == nil || a.V != ssa.Value(data) {
+				okSrc = false
+			}
+		}
+		// no reassignment of the parameter
+		if data != nil && data.Referrers() != nil {
+			for _, r := range *data.Referrers() {
+				if st, ok := r.(*ssa.Store); ok && st.Val == ssa.Value(data) {
+					if al, isAl := st.Addr.(*ssa.Alloc); isAl && al.Referrers() != nil {
+						for _, r2 := range *al.Referrers() {
+							if s2, ok := r2.(*ssa.Store); ok && s2.Addr == ssa.Value(al) && s2 != st {
+								okSrc = false
+							}
+						}
+					}
+				}
+			}
+		}
+		c.Check(okSrc && n == 1, "C13.U9-decodes-bytes-as-given", f.Name+" › decodes its data parameter", f.SSA.Pos(), "the codec reads from a buffer over the data parameter as handed in", "what is decoded is not the data handed in (rewritten, trimmed or replaced before the codec sees it): blocks that encode fine no longer decode")
+	}
+	c.Floor("C13.U9-decodes-bytes-as-given", 2)
 	c.Floor("C13.U1-foreign-prototype-rebuilt", 3)
 	c.Floor("C13.U2-prototype-type-pairing", 6)
 	c.Floor("C13.U6-unwrapped-unmodified", 3)
